@@ -44,12 +44,42 @@ def lexer_tables(ctx: RuleCtx) -> T.Tuple[T.List[T.Tuple[str, T.List[Regex]]], T
     return spec, single, kws
 
 
+def lex_roles(mod: T.Any) -> T.Dict[str, T.Any]:
+    """Names of the scanner's working variables, derived from their roles (not from their spelling): the loop guard gives the
+    position, the regex-table loop the token id and the match object, the yielded Token(...) the value / line / line-start variables."""
+    lex = mod.func('Lexer.lex')
+    wl = [w for w in ast.walk(lex) if isinstance(w, ast.While)]
+    if len(wl) != 1 or not (isinstance(wl[0].test, ast.Compare) and isinstance(wl[0].test.left, ast.Name)):
+        raise Undecided('Lexer.lex: expected one scanning loop guarded by `<pos> < len(...)`')
+    sl = [f for f in wl[0].body if isinstance(f, ast.For) and norm(f.iter) == 'self.token_specification']
+    if len(sl) != 1 or not sl[0].orelse or not (isinstance(sl[0].target, ast.Tuple) and len(sl[0].target.elts) == 2):
+        raise Undecided('Lexer.lex: regex table loop with single-character fallback not recognised')
+    tid = norm(sl[0].target.elts[0])
+    mo = [norm(st.targets[0]) for st in ast.walk(sl[0]) if isinstance(st, ast.Assign) and isinstance(st.value, ast.Call)
+          and call_method(st.value) == 'match' and isinstance(st.targets[0], ast.Name)]
+    ys = [y.value for y in ast.walk(lex) if isinstance(y, ast.Yield) and isinstance(y.value, ast.Call) and norm(y.value.func) == 'Token']
+    if len(ys) != 1 or len(mo) != 1:
+        raise Undecided('Lexer.lex: the single `yield Token(...)` / the regex match assignment was not recognised')
+    fields = [st.target.id for st in mod.cls('Token').body if isinstance(st, ast.AnnAssign) and isinstance(st.target, ast.Name)]
+    given: T.Dict[str, ast.AST] = dict(zip(fields, ys[0].args))
+    given.update({k.arg: k.value for k in ys[0].keywords if k.arg})
+    out: T.Dict[str, T.Any] = {'lex': lex, 'while': wl[0], 'spec_loop': sl[0], 'tid': tid, 'mo': mo[0], 'loc': wl[0].test.left.id}
+    for role in ('tid', 'value', 'lineno', 'line_start'):
+        e = resolve_locals(lex, given.get(role))
+        if not isinstance(e, ast.Name):
+            raise Undecided(f'Lexer.lex: Token field `{role}` is not fed from a plain variable')
+        if role == 'tid' and e.id != tid:
+            raise Undecided('Lexer.lex: the yielded token id is not the loop variable of the regex table loop')
+        out[role] = e.id
+    return out
+
+
 class _LexPath:
     def __init__(self, p: Path, tid: str, mode: str):
         self.p, self.tid, self.mode = p, tid, mode
 
 
-def _feasible(ctx: RuleCtx, mod: T.Any, p: Path, tid: str, mode: str, spec_loop: ast.For) -> T.Optional[T.Dict[str, T.Any]]:
+def _feasible(ctx: RuleCtx, mod: T.Any, p: Path, tid: str, mode: str, spec_loop: ast.For, R: T.Dict[str, T.Any]) -> T.Optional[T.Dict[str, T.Any]]:
     """Walk one path of the scanning loop body for a token that starts as `tid`; None when the path contradicts it."""
     cur: T.Optional[str] = tid if mode == 'regex' else None
     took_loop = False
@@ -61,21 +91,21 @@ def _feasible(ctx: RuleCtx, mod: T.Any, p: Path, tid: str, mode: str, spec_loop:
             continue
         if ev.kind == 'cond':
             names = names_in(ev.node)
-            if norm(ev.node) == 'mo':
+            if norm(ev.node) == R['mo']:
                 if mode == 'regex' and not ev.val:
                     return None
                 if mode == 'single' and ev.val:
                     return None
                 continue
-            if 'tid' in names and names <= {'tid'} and cur is not None:
+            if R['tid'] in names and names <= {R['tid']} and cur is not None:
                 try:
-                    v = bool(fold_expr(ctx.repo, mod, ev.node, env={'tid': cur}))
+                    v = bool(fold_expr(ctx.repo, mod, ev.node, env={R['tid']: cur}))
                 except Undecided:
                     raise Undecided(f'Lexer.lex: cannot evaluate `{short(ev.node)}` for token id {cur}')
                 if v != ev.val:
                     return None
                 continue
-            if 'tid' in names and cur is None:
+            if R['tid'] in names and cur is None:
                 continue
             info['guards'].append((ev.node, ev.val))
             continue
@@ -86,15 +116,15 @@ def _feasible(ctx: RuleCtx, mod: T.Any, p: Path, tid: str, mode: str, spec_loop:
         if isinstance(st, (ast.Assign, ast.AugAssign)):
             tg = st.targets[0] if isinstance(st, ast.Assign) else st.target
             if isinstance(tg, ast.Name):
-                if tg.id == 'tid':
+                if tg.id == R['tid']:
                     if isinstance(st.value, ast.Constant):
                         cur = st.value.value
                     elif isinstance(st.value, ast.Subscript) and norm(st.value.value) == 'self.single_char_tokens' and mode == 'single':
                         cur = tid
                     else:
                         cur = None
-                if tg.id in ('lineno', 'line_start'):
-                    info['assigned'].append((tg.id, st))
+                if tg.id in (R['lineno'], R['line_start']):
+                    info['assigned'].append(('lineno' if tg.id == R['lineno'] else 'line_start', st))
     if mode == 'regex' and not took_loop:
         return None
     if mode == 'single' and any(isinstance(e.node, ast.Break) for e in p.events if e.kind == 'stmt'):
@@ -119,14 +149,8 @@ def check_lines(ctx: RuleCtx) -> None:
     ids = [t for t, _ in spec] + list(single.values()) + sorted(kws)
     ctx.require(all(isinstance(t, str) and t for t in ids), f'all {len(ids)} token ids in the lexer tables are non-empty strings', mod, 'Lexer.__init__',
                 'token ids', 'an empty token id makes accept_any() report "nothing consumed" after consuming')
-    lex = mod.func('Lexer.lex')
-    loops = [w for w in ast.walk(lex) if isinstance(w, ast.While)]
-    if len(loops) != 1:
-        raise Undecided('Lexer.lex: expected one scanning loop')
-    body = loops[0].body
-    spec_loops = [f for f in body if isinstance(f, ast.For) and norm(f.iter) == 'self.token_specification']
-    if len(spec_loops) != 1 or not spec_loops[0].orelse:
-        raise Undecided('Lexer.lex: regex table loop with single-character fallback not recognised')
+    R = lex_roles(mod)
+    lex, body, spec_loops = R['lex'], R['while'].body, [R['spec_loop']]
     paths = enumerate_paths(body, unroll=1)
     cases: T.List[T.Tuple[str, str, T.Optional[Regex]]] = []
     for tid, rs in spec:
@@ -143,13 +167,13 @@ def check_lines(ctx: RuleCtx) -> None:
     groups: T.Dict[str, T.List[str]] = {}
     details: T.Dict[str, T.Tuple[ast.AST, str]] = {}
     for tid, mode, r in cases:
-        infos = [i for i in (_feasible(ctx, mod, p, tid, mode, spec_loops[0]) for p in paths) if i is not None]
+        infos = [i for i in (_feasible(ctx, mod, p, tid, mode, spec_loops[0], R) for p in paths) if i is not None]
         if not infos:
             raise Undecided(f'Lexer.lex: no path for token id {tid}')
         both = [i for i in infos if {n for n, _ in i['assigned']} == {'lineno', 'line_start'}]
         one = [i for i in infos if len({n for n, _ in i['assigned']}) == 1]
         none_unguarded = [i for i in infos if not i['assigned'] and not _newline_guard(i)]
-        arm = _arm_test(lex, tid, ctx, mod) if mode == 'regex' else f"tid == '{tid}' (single character)"
+        arm = _arm_test(lex, tid, ctx, mod, R) if mode == 'regex' else f"tid == '{tid}' (single character)"
         key = norm(arm) if not isinstance(arm, str) else arm
         if not both or one or none_unguarded:
             why = ('only one of lineno/line_start is updated on some path' if one else
@@ -164,25 +188,25 @@ def check_lines(ctx: RuleCtx) -> None:
             k = tuple(id(st) for _, st in i['assigned'])
             if k not in seen_f:
                 seen_f.add(k)
-                _check_formula(ctx, mod, lex, tid, mode, r, i)
+                _check_formula(ctx, mod, lex, tid, mode, r, i, R)
     for key, tids in groups.items():
         node, why = details[key]
         ctx.violation(mod, 'Lexer.lex', key, f'token kind(s) {tids} can match a newline (regex language) but in their branch {why}: '
                       f'every later token gets a wrong line and column', node if isinstance(node, ast.AST) else None)
 
 
-def _arm_test(lex: ast.AST, tid: str, ctx: RuleCtx, mod: T.Any) -> T.Any:
+def _arm_test(lex: ast.AST, tid: str, ctx: RuleCtx, mod: T.Any, R: T.Dict[str, T.Any]) -> T.Any:
     for n in ast.walk(lex):
-        if isinstance(n, ast.If) and names_in(n.test) == {'tid'}:
+        if isinstance(n, ast.If) and names_in(n.test) == {R['tid']}:
             try:
-                if fold_expr(ctx.repo, mod, n.test, env={'tid': tid}):
+                if fold_expr(ctx.repo, mod, n.test, env={R['tid']: tid}):
                     return n.test
             except Undecided:
                 continue
     return f'(no branch for {tid})'
 
 
-def _check_formula(ctx: RuleCtx, mod: T.Any, lex: ast.AST, tid: str, mode: str, r: T.Optional[Regex], info: T.Dict[str, T.Any]) -> None:
+def _check_formula(ctx: RuleCtx, mod: T.Any, lex: ast.AST, tid: str, mode: str, r: T.Optional[Regex], info: T.Dict[str, T.Any], R: T.Dict[str, T.Any]) -> None:
     """lineno must grow by the number of newlines in the token, line_start must become the offset just after the last one."""
     stmts = info['stmts']
     ln = [st for n, st in info['assigned'] if n == 'lineno']
@@ -194,17 +218,17 @@ def _check_formula(ctx: RuleCtx, mod: T.Any, lex: ast.AST, tid: str, mode: str, 
     split = None
     stripped_before = 0
     for st in stmts:
-        if isinstance(st, ast.Assign) and norm(st.targets[0]) == 'value' and isinstance(st.value, ast.Subscript) and norm(st.value.value) == 'value' \
+        if isinstance(st, ast.Assign) and norm(st.targets[0]) == R['value'] and isinstance(st.value, ast.Subscript) and norm(st.value.value) == R['value'] \
                 and isinstance(st.value.slice, ast.Slice) and split is None:
             up = st.value.slice.upper
-            stripped_before += -fold_expr(ctx.repo, mod, up, env={'tid': tid}) if up is not None else 0
-        if isinstance(st, ast.Assign) and isinstance(st.targets[0], ast.Name) and norm(st.value) == "value.split('\\n')":
+            stripped_before += -fold_expr(ctx.repo, mod, up, env={R['tid']: tid}) if up is not None else 0
+        if isinstance(st, ast.Assign) and isinstance(st.targets[0], ast.Name) and norm(st.value) == R['value'] + ".split('\\n')":
             split = st.targets[0].id
-    inc = _increment(ln, 'lineno')
+    inc = _increment(ln, R['lineno'])
     if inc is None or not isinstance(ls, ast.Assign):
         raise Undecided(f'Lexer.lex: token `{tid}`: `{short(ln)}` / `{short(ls)}` are not an increment of lineno and an assignment of line_start')
     start = linear(ls.value)
-    if inc == ({}, 1) and start == ({'loc': 1}, 0):
+    if inc == ({}, 1) and start == ({R['loc']: 1}, 0):
         ends = mode == 'single' or (r is not None and r.pattern.endswith('\\n') and rx.intersects(r.pattern, TWO_NEWLINES, r.flags) is None)
         ctx.require(bool(ends), f'token `{tid}`: exactly one newline, at its end -> lineno += 1, line_start = loc', mod, 'Lexer.lex', ls,
                     f'token `{tid}`: `{short(ln)}; {short(ls)}` is only right for a token that ends with its single newline', ls)
@@ -212,9 +236,9 @@ def _check_formula(ctx: RuleCtx, mod: T.Any, lex: ast.AST, tid: str, mode: str, 
     if split is None:
         raise Undecided(f'Lexer.lex: token `{tid}`: line bookkeeping `{short(ln)}` / `{short(ls)}` is not derived from a split of the token text')
     want_inc = ({f'len({split})': 1}, -1)
-    want_start = ({'loc': 1, f'len({split}[-1])': -1}, -stripped_before)
+    want_start = ({R['loc']: 1, f'len({split}[-1])': -1}, -stripped_before)
     ok = inc == want_inc and start == want_start
-    want = f'loc - len({split}[-1])' + (f' - {stripped_before}' if stripped_before else '')
+    want = R['loc'] + f' - len({split}[-1])' + (f' - {stripped_before}' if stripped_before else '')
     ctx.require(ok, f'token `{tid}`: lineno += newlines in the text, line_start = {want}', mod, 'Lexer.lex', ls,
                 f'token `{tid}`: the updates `{short(ln)}` / `{short(ls)}` do not place line_start just after the last newline of the token '
                 f'({stripped_before} closing characters were stripped from the text before it was split; expected `lineno += len({split}) - 1`, `line_start = {want}`)', ls)
@@ -253,6 +277,33 @@ def _increment(st: ast.AST, name: str) -> T.Optional[T.Tuple[T.Dict[str, int], i
             del t[name]
             return t, c
     return None
+
+
+def resolve_locals(fn: ast.AST, e: T.Optional[ast.AST], depth: int = 0) -> T.Optional[ast.AST]:
+    """Replace names that have exactly one plain definition in `fn` (and are not parameters) by that definition."""
+    if e is None or depth > 4:
+        return e
+    params = {a.arg for a in fn.args.posonlyargs + fn.args.args + fn.args.kwonlyargs}  # type: ignore[attr-defined]
+    defs: T.Dict[str, T.List[T.Optional[ast.AST]]] = {}
+    for st in walk_no_nested(fn):
+        if isinstance(st, ast.Assign):
+            for t in st.targets:
+                for n in ast.walk(t):
+                    if isinstance(n, ast.Name):
+                        defs.setdefault(n.id, []).append(st.value if isinstance(t, ast.Name) else None)
+        elif isinstance(st, (ast.AugAssign, ast.AnnAssign, ast.For, ast.NamedExpr, ast.comprehension)):
+            for n in ast.walk(st.target):
+                if isinstance(n, ast.Name):
+                    defs.setdefault(n.id, []).extend([None, None])
+
+    class Sub(ast.NodeTransformer):
+        def visit_Name(self, n: ast.Name) -> ast.AST:
+            d = defs.get(n.id, [])
+            if isinstance(n.ctx, ast.Load) and n.id not in params and len(d) == 1 and d[0] is not None:
+                return resolve_locals(fn, d[0], depth + 1) or n
+            return n
+    import copy
+    return Sub().visit(copy.deepcopy(e))
 
 
 # -- R6 ------------------------------------------------------------------------------------------------
@@ -297,6 +348,8 @@ def check_extents(ctx: RuleCtx, spliced: T.Optional[T.Dict[str, str]] = None) ->
             args = args[1:]
         kw = {k.arg: k.value for k in c.keywords}
         pf, pl = stored[first_f], stored[last_f]
+        args = [resolve_locals(fn, a) for a in args]
+        kw = {k: resolve_locals(fn, v) for k, v in kw.items()}
         if mode == 'full':
             ok = len(args) >= 2 and norm(args[0]) == f'{pf}.lineno' and norm(args[1]) == f'{pf}.colno'
             ctx.require(ok, f'{cls}: starts at its first field `{first_f}`', mod, f'{cls}.__init__', f'start of {cls}',
